@@ -212,7 +212,11 @@ func (s *Solver) discharge(ob *Obligation, query string, stage int) {
 	for _, sc := range solvers {
 		sc := sc
 		go func() {
-			res, out, el := runSolver(cctx, sc, file, s.TimeoutS, s.Seed)
+			to := s.TimeoutS
+			if ob.Short && to > 10 {
+				to = 10
+			}
+			res, out, el := runSolver(cctx, sc, file, to, s.Seed)
 			ch <- r{res, sc.Name, out, el}
 		}()
 	}
@@ -332,13 +336,21 @@ func (s *Solver) DischargeAll(obs []*Obligation, par int) {
 		run(all, 5, 2)
 		return
 	}
+	ts1 := time.Now()
 	run(all, par, 1)
+	if os.Getenv("GOCV_TIMING") != "" {
+		fmt.Fprintf(os.Stderr, "timing: stage 1 %.1fs\n", time.Since(ts1).Seconds())
+	}
 	for i, ob := range obs {
 		if ob.Status == "" {
 			rest = append(rest, i)
 		}
 	}
+	ts2 := time.Now()
 	run(rest, 5, 2)
+	if os.Getenv("GOCV_TIMING") != "" {
+		fmt.Fprintf(os.Stderr, "timing: stage 2 %.1fs for %d\n", time.Since(ts2).Seconds(), len(rest))
+	}
 	// last resort for what is still undecided (not refuted): once more, three at a time, with another seed and twice
 	// the time - a solver starved by a loaded machine must not turn into an alarm.
 	var again []int
